@@ -128,6 +128,27 @@ STRENGTHENED = {
  "C17-2e": "missed at first (the exec shim had no Wait, the tree did not build): vexec.Cmd.Wait modelled (process dead and no write into the stdout pipe under way) and scenario S11 - the device keeps sending while the port is stopped and closed",
  "C18-1e": "missed at first (payload slices had no spare capacity): engine.Spare - the payload sits in front of sentinel bytes inside its capacity; building must not write there",
  "C19-2e": "a change to midicatdrv, outside what C19 observes (midicat.ReadAndConvert); reported by C17 scenario S12 (two lines written with one write)",
+ # round 6
+ "C02-1f": "missed at first: tokens that are not an end-of-track but end in FF 2F 00 (sequencer-specific, text, escape) added to the generator's alphabet",
+ "C02-2f": "missed at first: end-of-track events whose zero length is written in two to four bytes, in every track of one- to three-track files",
+ "C05-1f": "missed at first (no check looked across calls): a valid canary file (every channel status x four data values, every meta type, sysex packets) is read after every family of malformed inputs in the same process and must read as the reference parser reads it",
+ "C06-2f": "missed at first (re-listen with the same buffer size): the same port listened to twice with different sysex buffer sizes, sysex lengths between the two",
+ "C07-1f": "not in C07's domain (needs two messages in one Send); reported by C04 (partitions)",
+ "C07-2f": "not in C07's domain (needs a message cut between its data bytes and time passing); reported by C04 (partitions x time deltas)",
+ "C09-1f": "missed at first: files whose header declares no track (or one too many), followed by a track and the first 1..7 bytes of another chunk header",
+ "C10-1f": "missed at first (read faults only through ReadFrom): every read fault is also injected under smf.ReadTracksFrom, whose Error() must tell",
+ "C10-2f": "NOT caught: needs a destination that returns n < len(p) with a nil error, which breaks the io.Writer contract; the unchanged tree reports success for such a destination as well (domain decision, DESIGN.md 0.2)",
+ "C12-1f": "missed at first (selections named existing tracks only): selections naming a track the file does not have, alone and together with an existing one",
+ "C12-2f": "missed at first: the chunks of a multi-track file under a header that says format 0, played through Play",
+ "C13-2f": "missed at first in C13 (C03's WriteFile sequence reports it): smf.RecordTo saves takes of different lengths under one file name",
+ "C15-2f": "missed at first (clock arguments never zero): time signatures with one or both clock arguments 0, each zero standing for 8 on its own",
+ "C17-1f": "missed at first (one in and one out port): the helper stand-in reports four out ports; scenario S14 - Driver.Close while another thread opens two further ports",
+ "C17-2f": "missed at first (short messages only): scenario S13 - a 1500-byte message and a short one sent by two threads; each line must reach the helper in one piece",
+ "C18-2f": "missed at first (mmc.Message receivers were fresh): one mmc.Message receiver parses a hand-written response, then commands; this found a genuine defect (stale Data kept, fixed in /repo b060481)",
+ "C19-1f": "missed at first (malformed lines were short): long malformed lines, and every judged stream also decoded through a byte-wise source and one that answers every other call with (0, nil), call for call the same results",
+ "C19-2f": "missed at first (final error always io.EOF): the last byte arrives together with an error that is not io.EOF, or wraps it",
+ "C20-1f": "missed at first: edit 'bar numbers exchanged by hand' in the export-edit-export chain (expected order by Bar.Number)",
+ "C20-2f": "missed at first (bars held channel messages only): edit 'tempo and text events put into bars' in the chain",
 }
 rows = []
 for d in sorted(glob.glob(V + "/seeded/*/meta.json")):
